@@ -25,3 +25,6 @@ extern void touch(char *);
 static int has_low(const char *s) { unsigned i; for (i = 0; s[i] != 0; ++i) { if (s[i] >= 'a') return 1; } return 0; }
 void flagsel_ok(char *a, char *b) { int all = 1; if (a != 0 && has_low(a)) all = 0; if (all && b != 0 && has_low(b)) all = 0; if (all) touch(a); }
 void flagsel_bad(char *a, char *b) { int all = 1; if (a != 0 && has_low(a)) all = 0; if (b != 0 && has_low(b)) all = 1; if (all) touch(a); }
+/* the same in pointer form: a cursor walking from the end of the string towards its start */
+void strip_ptr_bad(char *s) { char *e = s + strlen(s) - 1; while (*e == '/') { *e = 0; --e; } }
+void strip_ptr_ok(char *s) { char *e = s + strlen(s) - 1; while (e >= s && *e == '/') { *e = 0; --e; } }
